@@ -148,6 +148,8 @@ func (cx *Ctx) oracle(name string, rs []JobResult) (violated bool, key, what, fi
 		return cx.oracleReal(rs)
 	case "c07.env":
 		return cx.oracleEnv(rs)
+	case "c07.process":
+		return cx.oracleProcess(rs)
 	case "c01.returns":
 		return cx.oracleReturns(rs)
 	case "c01.afterabort":
@@ -272,7 +274,7 @@ func (cx *Ctx) oracleArgs(rs []JobResult) (bool, string, string, string) {
 				}
 				c := r.Job.Calls[ci]
 				what := "edge list"
-				if strings.HasPrefix(o.ArgsMutated, "size map") {
+				if strings.Contains(o.ArgsMutated, "size map") {
 					what = "size map"
 				}
 				return true, "argument-mutated | " + what,
@@ -413,6 +415,39 @@ func (cx *Ctx) oracleEnv(rs []JobResult) (bool, string, string, string) {
 				what += "; " + firstDiff(base.Full, o.Full)
 			}
 			return true, "environment-dependent", what, fpOf(base.Hash, o.Hash)
+		}
+	}
+	return false, "", "", ""
+}
+
+// c07.process: the same multi job (one resolution) in several fresh, IDENTICAL simulated worker processes - same
+// simulated machine, same choices. Whatever differs between them comes from a source of nondeterminism that the
+// simulator does not own (coverage.seams.unowned: hash/maphash seeds, crypto/rand, %p, GC-dependent caches, ...) and that
+// differs per process: "in the same process or in a fresh one" is violated. The simulator itself is deterministic on
+// the unchanged tree (determinism self-test of every run), so the difference is the library's.
+func (cx *Ctx) oracleProcess(rs []JobResult) (bool, string, string, string) {
+	var base *spec.Outcome
+	for i, r := range rs {
+		if r.Res == nil || r.Res.Error != "" || len(r.Res.Outcomes) == 0 {
+			continue
+		}
+		o := r.Res.Outcomes[0]
+		if o.Verdict == "HARNESS" || o.Verdict == "BUDGET" || o.Verdict == "FATAL" {
+			continue
+		}
+		if base == nil {
+			oc := o
+			base = &oc
+			continue
+		}
+		if o.Hash != base.Hash || o.Verdict != base.Verdict {
+			c := r.Job.Calls[0]
+			what := fmt.Sprintf("Layout(%s; %s) %s in one fresh process but %s in fresh process %d, although both are identical simulated executions (same map orders, clock, entropy, schedule, machine): the result depends on a per-process source of nondeterminism the simulator does not own (see coverage.seams.unowned)",
+				edgesText(c.Edges), optsText(c.Opts), describe(*base), describe(o), i)
+			if o.Full != "" && base.Full != "" {
+				what += "; " + firstDiff(base.Full, o.Full)
+			}
+			return true, "process-dependent", what, fpOf("process-dependent")
 		}
 	}
 	return false, "", "", ""
